@@ -323,6 +323,9 @@ def _iso8583_to_field(bit, bit_config, message_data, encoding=DEFAULT_ENCODING):
         except ValueError as ex:
             raise Iso8583DataError(f'Invalid field length DE{bit}',
                                    binary_context_data=message_data, original_exception=ex)
+        if field_length < 0:
+            raise Iso8583DataError(f'Invalid field length DE{bit} - negative length {field_length}',
+                                   binary_context_data=message_data)
 
     field_data = message_data[length_size:length_size + field_length]
     LOGGER.debug(f'field_data={field_data}')
